@@ -665,7 +665,12 @@ impl std::ops::Add<Interval> for Interval {
     fn add(self, rhs: Self) -> Self {
         let lower = self.lower + rhs.lower;
         let upper = self.upper + rhs.upper;
-        if lower.is_nan() || upper.is_nan() {
+        if lower.is_nan()
+            || upper.is_nan()
+            || (self.lower + rhs.upper).is_nan()
+            || (self.upper + rhs.lower).is_nan()
+        {
+            // NaN operands, or infinity - infinity somewhere in the ranges
             f32::NAN.into()
         } else {
             Interval::new(lower, upper)
@@ -772,7 +777,12 @@ impl std::ops::Sub<Interval> for Interval {
     fn sub(self, rhs: Self) -> Self {
         let lower = self.lower - rhs.upper;
         let upper = self.upper - rhs.lower;
-        if lower.is_nan() || upper.is_nan() {
+        if lower.is_nan()
+            || upper.is_nan()
+            || (self.lower - rhs.lower).is_nan()
+            || (self.upper - rhs.upper).is_nan()
+        {
+            // NaN operands, or infinity - infinity somewhere in the ranges
             f32::NAN.into()
         } else {
             Interval::new(lower, upper)
